@@ -4,6 +4,7 @@ import (
 	"bytes"
 	"context"
 	"errors"
+	"fmt"
 	"log"
 	"os"
 	"runtime"
@@ -75,11 +76,38 @@ type c18Probe struct {
 	panicked chan struct{}  // closed at the first injected panic
 	once     sync.Once
 
+	armed    bool // calls made before arm() belong to the first instance of a reused factory: counted apart, no faults
+	preCalls map[string]int
+	done     map[string]int // calls that returned normally since arm(), per site (progress of the open instance)
+
 	holdSite   string // one call at this site is held in flight (it ignores its context, like a query that
 	holdAtCall int    // already has its rows) for holdNs of virtual time, then returns normally
 	holdNs     int64
 	held       chan struct{} // closed when that call has been entered
 	heldOnce   sync.Once
+}
+
+// arm starts the observation of the instance under test: virtual time zero, call numbering for the fault schedule
+func (p *c18Probe) arm() {
+	p.mu.Lock()
+	p.t0 = time.Now()
+	p.preCalls, p.calls, p.done, p.armed = p.calls, map[string]int{}, map[string]int{}, true
+	p.mu.Unlock()
+}
+
+// returned records that a call at a site returned normally
+func (p *c18Probe) returned(site string) {
+	p.mu.Lock()
+	if p.armed {
+		p.done[site]++
+	}
+	p.mu.Unlock()
+}
+
+func (p *c18Probe) doneCount(site string) int {
+	p.mu.Lock()
+	defer p.mu.Unlock()
+	return p.done[site]
 }
 
 func (p *c18Probe) setHold(site string, atCall int, ns int64) {
@@ -93,9 +121,13 @@ func newC18Probe(site string, atCall, count int, coolDown int64) *c18Probe {
 
 // hit records one call at a site and panics when the schedule says so.
 func (p *c18Probe) hit(site string) {
-	now := int64(time.Since(p.t0))
 	p.mu.Lock()
+	now := int64(time.Since(p.t0))
 	p.calls[site]++
+	if !p.armed {
+		p.mu.Unlock()
+		return
+	}
 	n := p.calls[site]
 	boom := site == p.site && p.count > 0 && n >= p.atCall && n < p.atCall+p.count
 	if boom {
@@ -230,6 +262,7 @@ func (f *c18Pipeline) CheckUpkeeps(ctx context.Context, ps ...ocr2keepers.Upkeep
 	began := int64(time.Since(f.p.t0))
 	f.p.hit(c18SitePipeline)
 	defer f.p.pipelineReturned(began)
+	defer f.p.returned(c18SitePipeline)
 	if f.latency > 0 {
 		if f.honorCtx {
 			select {
@@ -281,8 +314,65 @@ type c18Sys struct {
 	sites   []string   // provider sites whose calls are counted
 	// for "other flows keep ticking": one representative site per flow that ticks on its own, and the flow each
 	// panic site belongs to (a flow is not its own "other")
-	flowRep map[string]string
-	flowOf  map[string]string
+	flowRep      map[string]string
+	flowOf       map[string]string
+	progressSite string         // the check-pipeline call of this family: an open instance with work must get through to it
+	firstClose   map[string]int // factory reuse: what closing the first instance returned (enum counts; "panic" if it panicked)
+}
+
+// c18SafeClose calls a Close and turns a panic out of it into a value
+func c18SafeClose(f func() error) (err error, panicked string) {
+	defer func() {
+		if r := recover(); r != nil {
+			panicked = fmt.Sprint(r)
+		}
+	}()
+	return f(), ""
+}
+
+// c18Build applies the factory-reuse dimension (libocr keeps ONE factory and asks it for a new instance on every
+// config change): mk builds one instance on the one factory and returns its Close.
+//
+//	reuse 0: the instance under test is the factory's first
+//	reuse 1: a first instance is built, runs reuseRun, is closed, reuseGap passes, then the instance under test is built
+//	reuse 2: a first instance is built and runs reuseRun; the instance under test is built while it is still open;
+//	         reuseGap later the first one is closed
+//
+// The probe is armed (time zero, fault schedule, call counters) when the instance under test is created; everything the
+// shared fakes see afterwards — from either instance — is attributed to the case.
+func c18Build(in c18Input, pr *c18Probe, mk func(cfg string) func() error) (close func() error, first map[string]int) {
+	cfg2 := `{}`
+	if in.ReuseCfg == "diff" {
+		cfg2 = `{"performLockoutWindow":100000,"minConfirmations":1,"maxUpkeepBatchSize":3,"gasLimitPerReport":4000000}`
+	}
+	closeFirst := func(c func() error) map[string]int {
+		err, pan := c18SafeClose(c)
+		out := c18CloseErrs(err)
+		if pan != "" {
+			out["panic"]++
+		}
+		return out
+	}
+	switch in.Reuse {
+	case 1:
+		c1 := mk(`{}`)
+		time.Sleep(time.Duration(in.ReuseRunNs))
+		first = closeFirst(c1)
+		time.Sleep(time.Duration(in.ReuseGapNs))
+		pr.arm()
+		return mk(cfg2), first
+	case 2:
+		c1 := mk(`{}`)
+		time.Sleep(time.Duration(in.ReuseRunNs))
+		pr.arm()
+		c2 := mk(cfg2)
+		time.Sleep(time.Duration(in.ReuseGapNs))
+		first = closeFirst(c1)
+		return c2, first
+	default:
+		pr.arm()
+		return mk(cfg2), map[string]int{}
+	}
 }
 
 // othersOf returns the representative sites of the flows other than the one `site` belongs to
@@ -299,14 +389,15 @@ func (s *c18Sys) othersOf(site string) []string {
 
 func newC18V3Sys(t testing.TB, in c18Input) *c18Sys {
 	n := newC18Node(t, in)
-	return &c18Sys{probe: n.Probe, close: n.Plugin.Close, subs: n.Blocks.NumSubs, stopEnv: func() {}, sites: c18Sites,
+	return &c18Sys{probe: n.Probe, close: n.Close, firstClose: n.First, progressSite: c18SitePipeline, subs: n.Blocks.NumSubs, stopEnv: func() {}, sites: c18Sites,
 		flowRep: map[string]string{"log": c18SiteLog, "recovery": c18SiteRecov, "sampling": c18SiteGetter, "coordinator": c18SiteEvents},
 		flowOf: map[string]string{c18SiteLog: "log", c18SiteRecov: "recovery", c18SiteGetter: "sampling", c18SiteEvents: "coordinator",
 			c18SitePipeline: "pipeline", c18SitePost: "post", c18SiteGC: "resultStore"}}
 }
 
 type c18Node struct {
-	Plugin ocr3types.ReportingPlugin[plugin.AutomationReportInfo]
+	Close  func() error
+	First  map[string]int
 	Probe  *c18Probe
 	Blocks *fakeBlocks
 }
@@ -322,11 +413,13 @@ func newC18Node(t testing.TB, in c18Input) *c18Node {
 		&c18Pipeline{p: pr, latency: time.Duration(in.LatencyNs), honorCtx: in.HonorCtx, ineligible: in.Ineligible},
 		runner.RunnerConfig{Workers: 4, WorkerQueueLength: 100, CacheExpire: 20 * time.Minute, CacheClean: 30 * time.Second},
 		&recEncoder{}, utg, wg, &c18StateUpdater{p: pr}, log.New(&c18LogWriter{p: pr}, "", 0))
-	p, _, err := fac.NewReportingPlugin(context.Background(), ocr3types.ReportingPluginConfig{N: 4, F: 1, OffchainConfig: []byte(`{}`)})
-	if err != nil {
-		t.Fatalf("NewReportingPlugin: %v", err)
-	}
-	n.Plugin = p
+	n.Close, n.First = c18Build(in, pr, func(cfg string) func() error {
+		p, _, err := fac.NewReportingPlugin(context.Background(), ocr3types.ReportingPluginConfig{N: 4, F: 1, OffchainConfig: []byte(cfg)})
+		if err != nil {
+			t.Fatalf("NewReportingPlugin: %v", err)
+		}
+		return p.Close
+	})
 	return n
 }
 
